@@ -934,6 +934,9 @@ def literal_value(node: ast.AST) -> bool:
     ):
         left = literal_value(node.left)
         right = literal_value(node.right)
+        if isinstance(node.op, ast.Mod) and isinstance(left, (str, bytes)) and _contains_set(right):
+            # String formatting iterates the set
+            raise ValueError("Cannot find a deterministic value for something that iterates a set")
         return constants.COMPARISON_OPERATORS[type(node.op)](left, right)
 
     if match_template(node, ast.Compare(left=object, ops={object}, comparators={object})):
@@ -971,6 +974,9 @@ def literal_value(node: ast.AST) -> bool:
 
     # For e.g. "".join(("1", "2"))
     if match_template(node, ast.Call(func=ast.Attribute(value=ast.Constant), keywords=[])):
+        if node.func.attr.startswith("_"):
+            # For example "abc".__hash__(), which differs from process to process
+            raise ValueError("Cannot find a deterministic value for a call of a special method")
         node_value = literal_value(node.func.value)
         args = [literal_value(arg) for arg in node.args]
         if _contains_set(args):
